@@ -16,10 +16,16 @@ Inductive qreal := QReal (err : bool) (tokens jwts : list (list Z)).
 Definition rxtable := list ((list Z * list Z) * bool).         (* (pattern, text) -> compiles && MatchString *)
 Definition permlist := list (list Z * list Z).                 (* (action, path) *)
 
-(* what the driver knows about a token string by construction: whether it must verify under the case's configuration
-   (good key, untampered, allowed alg, not expired, issuer/audience as configured), the permission list it put into the
-   claim (None: claim missing or not a permission list), the subject *)
-Inductive tinfo := TInfo (valid : bool) (perms : option permlist) (sub : list Z).
+(* what the driver knows about a token string by construction: whether it must verify whatever the issuer/audience
+   settings are (good key of a served JWKS, untampered, allowed alg, not expired / not before, iss and aud of a JSON type a
+   token may carry), the iss claim it put in ([] = absent, null or ""), the aud claim it put in (a string is a one-element
+   list; [] = absent, null or an empty array), the permission list it put into the claim (None: claim missing or not a
+   permission list), the subject *)
+Inductive tinfo := TInfo (valid : bool) (iss : list Z) (aud : list (list Z)) (perms : option permlist) (sub : list Z).
+
+(* golang-jwt on a candidate token WITHOUT parser options (None: rejected): subject, issuer, audience, raw JSON under the
+   claim key; lib_ok: the same library call WITH the options the configuration calls for (built by the driver) succeeds *)
+Inductive vclaims := VC (sub iss : list Z) (aud : list (list Z)) (raw : option (list Z)) (lib_ok : bool).
 
 Inductive obs := OGranted (user : list Z) | ODenied (ask : bool) | OPanic.
 
@@ -32,7 +38,8 @@ Inductive case :=
        (o : obs)
 | Jwt (ex : permlist) (rx : rxtable) (q : creq) (shape : qshape) (real : qreal)
       (inq : option bool) (jwks_ok : bool)
-      (parse : list (list Z * option (list Z * option (list Z))))    (* candidate token -> golang-jwt verdict *)
+      (issuer audience : list Z)                                        (* Manager.JWTIssuer, Manager.JWTAudience *)
+      (parse : list (list Z * option vclaims))                          (* candidate token -> golang-jwt verdict *)
       (decp : list (list Z * option permlist))                          (* raw JSON -> []AuthInternalUserPermission *)
       (decs : list (list Z * option (list Z)))                          (* raw JSON -> string *)
       (known : list (list Z * tinfo))                                   (* by construction *)
@@ -71,6 +78,9 @@ Definition m_req (q : creq) : xreq :=
        x_id := id; x_query := query; x_agent := agent; x_ask := ask |} end.
 Definition m_perm (p : list Z * list Z) : perm := {| p_action := fst p; p_path := snd p |}.
 Definition m_rx (t : rxtable) : list Z -> list Z -> bool := fun p s => get false (lookup2 t p s).
+
+Definition m_claims (v : vclaims) : jclaims :=
+  match v with VC sub iss aud raw _ => {| jc_sub := sub; jc_iss := iss; jc_aud := aud; jc_raw := raw |} end.
 
 Definition obs_of (o : outcome) : obs := match o with Granted u => OGranted u | Denied a => ODenied a end.
 Definition obs_eqb (a b : obs) : bool :=
@@ -115,20 +125,26 @@ Definition mismatch (c : case) : bool :=
                          | None => []
                          end posts)
       || negb (query_model_ok q shape real) || negb (rx_complete rx (q_path q) ex)
-  | Jwt ex rx q shape real inq jwks_ok parse decp decs known o =>
+  | Jwt ex rx q shape real inq jwks_ok issuer audience parse decp decs known o =>
       let r := m_req q in
-      let f_parse := fun t => flat (lookup1 parse t) in
+      let f_verify := fun t => match flat (lookup1 parse t) with Some v => Some (m_claims v) | None => None end in
       let f_decp := fun raw => match flat (lookup1 decp raw) with Some ps => Some (map m_perm ps) | None => None end in
       let f_decs := fun raw => flat (lookup1 decs raw) in
       let tok := get_token (in_query_flag true inq) r in
-      negb (obs_eqb (obs_of (authenticate_jwt (m_rx rx) f_parse f_decp f_decs (map m_perm ex) jwks_ok inq r)) o)
+      negb (obs_eqb (obs_of (authenticate_jwt_cfg (m_rx rx) f_verify f_decp f_decs issuer audience (map m_perm ex) jwks_ok inq r)) o)
       || negb (query_model_ok q shape real) || negb (rx_complete rx (q_path q) ex)
+      (* the modelled option list + verifyIssuer/verifyAudience agree with the real library called with the options *)
+      || negb (forallb (fun e => match snd e with
+                                 | Some (VC _ _ _ _ lib_ok as v) =>
+                                     Bool.eqb lib_ok (forallb (opt_ok (m_claims v)) (parser_opts issuer audience))
+                                 | None => true
+                                 end) parse)
       (* oracle completeness along the path the model takes *)
       || negb (match tok with
                | [] => true
                | _ => match lookup1 parse tok with
                       | None => false
-                      | Some (Some (_, Some raw)) =>
+                      | Some (Some (VC _ _ _ (Some raw) _)) =>
                           present (lookup1 decp raw) &&
                           match flat (lookup1 decp raw) with
                           | Some ps => rx_complete rx (q_path q) ps
@@ -213,6 +229,11 @@ Definition spec_body (q : creq) (tok : list Z) (fs : list (list Z * option (list
     field_is fs [113; 117; 101; 114; 121] (Some query) && field_is fs [117; 115; 101; 114; 65; 103; 101; 110; 116] (Some agent)
   end.
 
+(* a configured issuer must BE the token's iss; a configured audience must be AMONG the token's aud; an empty setting does
+   not constrain; the two settings are independent *)
+Definition spec_settings (issuer audience iss : list Z) (aud : list (list Z)) : bool :=
+  (s_is issuer [] || s_is iss issuer) && (s_is audience [] || existsb (s_is audience) aud).
+
 Definition spec_fail (c : case) : bool :=
   match c with
   | Tok inq q shape _ observed =>
@@ -236,7 +257,7 @@ Definition spec_fail (c : case) : bool :=
                              end)
         end
       end
-  | Jwt ex rx q shape _ inq jwks_ok _ _ _ known o =>
+  | Jwt ex rx q shape _ inq jwks_ok issuer audience _ _ _ known o =>
       match q with CReq _ _ _ _ act path _ _ _ _ _ =>
         let excl := spec_grants rx act path ex in
         let flag := match inq with Some b => b | None => false end in
@@ -245,7 +266,8 @@ Definition spec_fail (c : case) : bool :=
         | Some tok =>
             let info := match tok with [] => None | _ => lookup1 known tok end in
             let '(ok, sub) := match info with
-                              | Some (TInfo true (Some ps) sub) => (jwks_ok && spec_grants rx act path ps, sub)
+                              | Some (TInfo true iss aud (Some ps) sub) =>
+                                  (jwks_ok && spec_settings issuer audience iss aud && spec_grants rx act path ps, sub)
                               | _ => (false, [])
                               end in
             match o with
